@@ -22,6 +22,7 @@ type SpecCtx struct {
 	pkg   *types.Package
 	inOld bool
 	depth int
+	noExpand bool // keep literal-bounded quantifiers as quantifiers
 }
 
 type specErr struct{ msg string }
@@ -158,7 +159,7 @@ func (x *Exec) eval(ctx *SpecCtx, e *Expr) Value {
 			c2.names[n] = v
 		}
 		body := x.evalBool(&c2, e.Args[0])
-		if len(vars) == 1 {
+		if len(vars) == 1 && !ctx.noExpand {
 			if r, ok := x.expandBounded(e.Kind, body, vars[0]); ok {
 				return r
 			}
@@ -225,6 +226,18 @@ func (x *Exec) evalIdent(ctx *SpecCtx, name string) Value {
 
 // lookupLocal resolves a source-level variable name to its current SSA value in frame fr.
 func (x *Exec) lookupLocal(st *State, fr *Frame, name string) (Value, bool) {
+	// 0. composite (struct/array) locals that live in memory are denoted by their address
+	for _, blk := range fr.fn.Blocks {
+		for _, in := range blk.Instrs {
+			if v, ok := in.(*ssa.DebugRef); ok && v.IsAddr && v.Object() != nil && v.Object().Name() == name {
+				if pv, ok := fr.env[v.X]; ok {
+					if p, ok := pv.(PtrV); ok && (isStructT(p.Elem) || isArrayT(p.Elem)) {
+						return p, true
+					}
+				}
+			}
+		}
+	}
 	// 1. phi of the current block (loop variable) or any executed phi with that comment,
 	//    preferring the one in the current block, then dominating blocks nearest first
 	var best ssa.Value
@@ -283,7 +296,11 @@ func (x *Exec) lookupLocal(st *State, fr *Frame, name string) (Value, bool) {
 		for _, in := range blk.Instrs {
 			if v, ok := in.(*ssa.DebugRef); ok && v.IsAddr && v.Object() != nil && v.Object().Name() == name {
 				if pv, ok := fr.env[v.X]; ok {
-					return x.load(st, pv.(PtrV)), true
+					p := pv.(PtrV)
+					if isStructT(p.Elem) || isArrayT(p.Elem) {
+						return p, true // composite locals are denoted by their address (object)
+					}
+					return x.load(st, p), true
 				}
 			}
 		}
@@ -498,6 +515,8 @@ func (x *Exec) evalIndex(ctx *SpecCtx, base Value, idx *Term, e *Expr) Value {
 			if v.Op == "app" && r.Op == "select" {
 				if sf := x.db.SpecFns[v.Name]; sf != nil && sf.Bytes {
 					b.SetBounds(r, new(big.Int), big.NewInt(255))
+				} else if sf != nil && sf.U32 {
+					b.SetBounds(r, new(big.Int), big.NewInt(4294967295))
 				}
 			}
 			return r
@@ -650,6 +669,45 @@ func (x *Exec) evalCall(ctx *SpecCtx, e *Expr) Value {
 			return v
 		}
 		specFail("id() of unsupported value in %s", e.String())
+	case "lemmainst":
+		// lemmainst(name, args...): the named (separately proved) lemma instantiated with the arguments
+		if len(e.Args) < 1 || e.Args[0].Kind != "ident" {
+			specFail("lemmainst(name, args...)")
+		}
+		lm := x.db.lemma(e.Args[0].Name)
+		if lm == nil {
+			specFail("lemmainst: unknown lemma %s", e.Args[0].Name)
+		}
+		if len(e.Args)-1 != len(lm.Vars) {
+			specFail("lemmainst %s: %d arguments for %d variables", lm.Name, len(e.Args)-1, len(lm.Vars))
+		}
+		vals := map[string]*Term{}
+		for j, v := range lm.Vars {
+			n, _, _ := strings.Cut(v, ":")
+			t, ok := arg(j + 1).(*Term)
+			if !ok {
+				specFail("lemmainst %s: argument %d is not a term", lm.Name, j+1)
+			}
+			vals[n] = t
+		}
+		inst := x.lemmaTerm(lm, func(n, s string) *Term {
+			if vals[n].Sort != s {
+				specFail("lemmainst %s: argument %s has sort %s, want %s", lm.Name, n, vals[n].Sort, s)
+			}
+			return vals[n]
+		})
+		if lm.Induct != "" {
+			inst = b.Implies(b.Le(b.Int(0), vals[lm.Induct]), inst)
+		}
+		x.usedLemmas[lm.Name] = true
+		x.lemmaFacts = append(x.lemmaFacts, inst)
+		return inst
+	case "keepq":
+		// keepq(E): evaluate E without expanding literal-bounded quantifiers
+		need(1)
+		c2 := *ctx
+		c2.noExpand = true
+		return x.eval(&c2, e.Args[0])
 	case "as":
 		// as(x, T): the interface value x viewed as a *T (its dynamic type is asserted separately with typeis)
 		need(2)
@@ -1180,7 +1238,59 @@ func (x *Exec) expandBounded(kind string, body *Term, v *Term) (*Term, bool) {
 		}
 	}
 	if lo == nil || hi == nil {
-		return nil, false
+		// symbolic window: base <= v < base + c with a literal width c
+		var base *Term
+		width := int64(-1)
+		var rest2 []*Term
+		for _, g := range guard {
+			if (g.Op == "<=" || g.Op == "<") && len(g.Args) == 2 && g.Args[1] == v && !g.Args[0].bound && g.Args[0].Op != "int" && base == nil {
+				base = g.Args[0]
+				if g.Op == "<" {
+					base = b.Add(base, b.Int(1))
+				}
+				continue
+			}
+			rest2 = append(rest2, g)
+		}
+		if base == nil {
+			return nil, false
+		}
+		var rest3 []*Term
+		for _, g := range rest2 {
+			if (g.Op == "<=" || g.Op == "<") && len(g.Args) == 2 && g.Args[0] == v && !g.Args[1].bound && width < 0 {
+				d := b.Sub(g.Args[1], base)
+				if k, ok := d.Int64(); ok {
+					if g.Op == "<=" {
+						k++
+					}
+					if k >= 0 && k <= 64 {
+						width = k
+						continue
+					}
+				}
+			}
+			rest3 = append(rest3, g)
+		}
+		if width < 0 {
+			return nil, false
+		}
+		var inst []*Term
+		for k := int64(0); k < width; k++ {
+			m := map[*Term]*Term{v: b.Add(base, b.Int(k))}
+			var os []*Term
+			for _, o := range rest3 {
+				os = append(os, b.Subst(o, m))
+			}
+			if kind == "forall" {
+				inst = append(inst, b.Implies(b.And(os...), b.Subst(rest, m)))
+			} else {
+				inst = append(inst, b.And(os...))
+			}
+		}
+		if kind == "forall" {
+			return b.And(inst...), true
+		}
+		return b.Or(inst...), true
 	}
 	n := new(big.Int).Sub(hi, lo)
 	if n.Sign() < 0 {
